@@ -12,7 +12,7 @@ PROP = dict(
     engines=[dict(
         name="rawdb", classify=classify, shrink="ops",
         quick=dict(cases=480, shards=8, profiles=["debug"]),
-        thorough=dict(cases=24000, shards=16, profiles=["debug", "release"]),
+        thorough=dict(cases=12000, shards=16, profiles=["debug", "release"]),
     )],
     model_targets=["Extract/Extract.vo"],
     _vecerr=True,
@@ -57,7 +57,7 @@ def _classify_vecerr(inp, obs, tags):
 PROP["engines"] = PROP["engines"] + [dict(
     name="vecerr", classify=_classify_vecerr,
     quick=dict(cases=320, shards=4, profiles=["debug"]),
-    thorough=dict(cases=16000, shards=16, profiles=["debug", "release"]),
+    thorough=dict(cases=8000, shards=16, profiles=["debug", "release"]),
 )]
 PROP["rule"] += (" || vecdb part (engine vecerr, implementation-only oracles): BytesVec/ZeroCopyVec/PcoVec/LZ4Vec brought into a "
                  "generated state (stored values, raw: deleted slots with a holes region, buffered values, change records), then a "
